@@ -3,6 +3,7 @@ import ast
 from ..model import own_nodes, AnalysisError
 from ..paths import factmap, must_call, call_text, returns
 from ..fsm import Fsm, WORKING, ENDING, rule_decisions_on_table
+from . import shared
 
 
 def calls_named(unit, text):
@@ -257,6 +258,11 @@ def run(P, R):
         R.check(r7, ok, 'a Slave stays in %s only while its Master does, else FINAL' % own, 'progress|%s-slave' % cname,
                 u.loc(), '%s._slave_next returns %s / stays under other facts than "Master in %s"' %
                 (cname, sorted(map(str, d)), own))
+    # ---------------------------------------------------------------- R8
+    r8 = R.rule('R8', 'must-call under fact', 'no start or stop job stays pending on a lost instance: both _common_next '
+                'forward the lost instances to Starter and Stopper, every command targeting a lost instance is removed '
+                'and the sequence moves on (same obligations as C10.R4)', 6)
+    shared.jobs_dropped_with_instance(P, R, r8)
     R.assume('Liveness of the composed system (bounded return to OPERATION under all fault prefixes and message '
              'interleavings) is NOT decided; these rules decide the structural ways progress is lost.')
 
